@@ -8,7 +8,8 @@ import Tickit.Gen.ModeLayout
   (`toplevel = false`) or owned by a toplevel instance.  `validFrom .running ops = some ph` says that the
   history keeps the documented contract (`Modes.phaseNext`, `Modes.opOk`) and ends in phase `ph`.
   The terminal is the byte-level VT mode-state interpreter `Modes.VT`, started in any mode state `m0`
-  in which the four listed modes are off (`VModes.standard`; blink, shape, DECLRMM are arbitrary).
+  in which the four listed modes are off (`VModes.standard`; blink, shape, DECLRMM are arbitrary); the last
+  section takes the hand-over state as a parameter (`VModes.handover`: the cursor may be hidden).
 
   The model is parameterised by `Modes.Cfg`: which of the three repair sites the working tree has
   (read from the source on every run into `Gen.ModeLayout`).  Every theorem is stated for every `Cfg`
